@@ -30,13 +30,53 @@ LEVEL_TEXT = ("Termination cycle, Doist.done and every doer's done flag are judg
 LEVEL_NOTE = "trusted: vf/sched.py recorder, vf/models/cycle.py; Python 3.12 generator.close() returns None (forced closes never carry a value)"
 ASSUMPTIONS = ["static doer sets; non-real-time mode; limit > 0 or None"]
 NSHARDS = {"quick": 8, "thorough": 16}
-REQUIRE = {"runs_through_ado": 600, "runs_with_runtime_extend_flags_judged": 300, "stale_true_reset_seen_for_extended_doer": 300, "runs_judged": 2000, "limit_fired_with_alive": 300, "no_limit_runs": 500, "self_completed_flags_checked": 3000,
+REQUIRE = {"float_limit_runs_judged": 1500, "float_limit_runs_with_an_end_tyme_one_ulp_from_the_limit": 150, "runs_with_membership_preserving_runtime_calls": 300, "membership_preserving_calls_made": 300, "runs_through_ado": 600, "runs_with_runtime_extend_flags_judged": 300, "stale_true_reset_seen_for_extended_doer": 300, "runs_judged": 2000, "limit_fired_with_alive": 300, "no_limit_runs": 500, "self_completed_flags_checked": 3000,
            "forced_closed_flags_checked": 800, "stale_true_reset_seen": 3000, "limit_not_multiple_of_tock": 100}
+
+
+def float_tie_case(rng):
+    """Non-dyadic (start, tock, L) with L nominally a multiple of tock and doers that run every cycle for ever: the only
+    thing decided is the cycle in which the limit fires, judged literally on the float values the run itself produced
+    (first cycle whose end tyme, as ticked, is >= float(start) + float(L))."""
+    from decimal import Decimal
+    tock = rng.choice([0.1, 0.2, 0.3, 0.7, 0.05, 0.6, 1.1])
+    start = float(Decimal(str(tock)) * rng.randint(1, 40)) if rng.random() < 0.7 else rng.choice([0.3, 0.6, 1.2, 2.8, 0.1, 7.7])
+    m = rng.randint(1, 30)
+    limit = float(Decimal(str(tock)) * m)
+    prog = gen_sched.gen_prog(rng, dyadic=False, nmax=3, depth=0, group_p=0.0, leaf_kw={"forever_p": 1.0})
+    for lf in gen_sched.leaves_of(prog["doers"]):
+        lf["enter"], lf["end"], lf["ys"] = "ok", None, [rng.choice([0.0, None])]
+    prog.update(tock=tock, tyme=start, limit=limit, do_args=rng.random() < 0.5, ctor_tyme=rng.choice([0.0, start]),
+                ctor_limit=None, runner=rng.choice(["do", "do", "ado"]), stale_done=True)
+    return {"prog": prog, "kind": "float-limit-tie", "m": m}
+
+
+def run_float_tie(case, ctx):
+    prog = case["prog"]
+    run = sched.execute(prog, max_cycles=case["m"] + 6)
+    tr = sched.compact(run, 40)
+    if run.result[0] != "return":
+        ctx.violation("run-did-not-return:" + str(run.result[1]), f"{run.result}", trace=tr)
+        return
+    ticks = [info["after"] for kind, did, t, info in run.trace if kind == "tick"]
+    ncyc = sum(1 for e in run.trace if e[0] == "cycle")
+    stop = prog["tyme"] + prog["limit"]          # the two floats the caller gave, added once
+    kfirst = next((i + 1 for i, a in enumerate(ticks) if a >= stop), None)
+    ctx.count("float_limit_runs_judged")
+    if any(a != stop and abs(a - stop) < 1e-9 for a in ticks):
+        ctx.count("float_limit_runs_with_an_end_tyme_one_ulp_from_the_limit")
+    if kfirst is None or ncyc != kfirst or run.doist.done is not False:
+        ctx.violation("limit-run-wrong-end-cycle:non-dyadic-limit-multiple-of-tock",
+                      f"start={prog['tyme']!r} L={prog['limit']!r} tock={prog['tock']!r}: start+L={stop!r}; cycle end tymes "
+                      f"{ticks[-4:]}: first cycle with end tyme >= start+L is {kfirst}, run made {ncyc} cycles "
+                      f"done={run.doist.done!r}", trace=tr)
 
 
 def cases(tier, seed, shard, nshards):
     rng = random.Random(f"{seed}:C05:{shard}")
     n = (4000 if tier == "quick" else 150000) // nshards
+    for _ in range(n // 2):
+        yield float_tie_case(rng)
     for _ in range(n):
         dyadic = rng.random() < 0.85
         prog = gen_sched.gen_prog(rng, dyadic=dyadic, nmax=7, depth=2, group_p=rng.choice([0.0, 0.3]),
@@ -81,6 +121,27 @@ def cases(tier, seed, shard, nshards):
                 prog["pool"] = news
                 if prog["limit"] is None and gen_sched.needs_limit(prog["doers"] + news):
                     prog["limit"] = prog["tock"] * 10 if dyadic else 2.05
+        elif r0 < 0.42:
+            # runtime calls that leave the doer set as it is (remove of nothing / of already completed doers / of the
+            # caller itself, extend of nothing / of present doers): the run must end exactly as the static run does
+            callers = [lf for lf in gen_sched.leaves_of(prog["doers"]) if lf.get("enter") == "ok"]
+            top_ids = {n_["id"] for n_ in prog["doers"]}
+            for _ in range(rng.randint(1, 2)):
+                if not callers:
+                    break
+                caller = rng.choice(callers)
+                last = caller["end"][0] if caller.get("end") else 4
+                k = rng.randint(1, last)
+                what = rng.choice(["rem-empty", "rem-completed", "rem-completed", "ext-empty", "ext-members", "rem-self"])
+                if what == "rem-self" and (caller["id"] not in top_ids or caller.get("end") is None):
+                    what = "rem-completed"       # a top-level doer that removes itself keeps running until it returns
+                act = {"rem-empty": ["remove", "doist", ["@empty"], False],
+                       "rem-completed": ["remove", "doist", ["@completed"], False],
+                       "rem-self": ["remove", "doist", ["@self", "@completed"], False],
+                       "ext-empty": ["extend", "doist", ["@empty"], False],
+                       "ext-members": ["extend", "doist", ["@members"], False]}[what]
+                caller.setdefault("acts", {}).setdefault(str(k), []).append(act)
+                prog["noop_acts"] = prog.get("noop_acts", 0) + 1
         yield {"prog": prog}
 
 
@@ -147,6 +208,8 @@ def run_flags_only(case, ctx):
 
 
 def run_case(case, ctx):
+    if case.get("kind") == "float-limit-tie":
+        return run_float_tie(case, ctx)
     prog = case["prog"]
     dyadic = prog.get("dyadic", True)
     if prog.get("runner") == "ado":
@@ -181,6 +244,9 @@ def run_case(case, ctx):
         ctx.violation("run-did-not-return:" + str(run.result[1]), f"{run.result}", trace=tr)
         return
     ctx.count("runs_judged")
+    if prog.get("noop_acts"):
+        ctx.count("runs_with_membership_preserving_runtime_calls")
+        ctx.count("membership_preserving_calls_made", sum(1 for e in run.trace if e[0] in ("ext-ret", "rem-ret")))
     start, tock, limit = prog["tyme"], prog["tock"], prog["limit"]
     # ---- reconstruct from the trace ------------------------------------------
     ncyc = 0
